@@ -620,6 +620,15 @@ struct gr
       std::size_t const dot = std::min(prog.find('.', at), prog.size());
       std::string const op = prog.substr(at, dot - at);
       at = dot + 1;
+      if (op.size() == 3 && op[0] == 'd' && op[1] == 'c' && op[2] >= '0' && op[2] <= '9')
+      {
+        std::size_t const d = static_cast<std::size_t>(op[2] - '0');
+        if (d >= 3)
+          return "bad-op";
+        slots[d] = std::make_unique<G>();
+        moved[d] = false;
+        continue;
+      }
       if (op.size() != 4 || op[2] < '0' || op[2] > '9' || op[3] < '0' || op[3] > '9')
         return "bad-op";
       std::size_t const d = static_cast<std::size_t>(op[2] - '0'), s = static_cast<std::size_t>(op[3] - '0');
@@ -726,6 +735,39 @@ struct gr
       if (fl[i] < 0 || fl[i] + 1 >= d[i] || q[i] < 0 || q[i] > 3)
         return false;
     return true;
+  }
+
+  // fill with a function that reads the grid being filled: the first / last / previous / next / current cell, + 7.
+  // "previous" and "next" are in storage order, computed here independently of the code under test.
+  static std::string fillself_line(ivec const &d, ll k, ll mode)
+  {
+    G g{mk(d, k)};
+    std::vector<ivec> order;
+    tuples(konst_(0), d, [&order](ivec const &t) { order.push_back(t); });
+    grid::fill(g, [&g, &d, &order, mode](pos const &p) {
+      ivec const cur = ut::from(p);
+      ivec src = cur;
+      std::size_t i = 0;
+      while (i < order.size() && order[i] != cur)
+        ++i;
+      if (mode == 0)
+        src = konst_(0);
+      else if (mode == 1)
+        src = plus_(d, -1);
+      else if (mode == 2 && i > 0)
+        src = order[i - 1];
+      else if (mode == 3 && i + 1 < order.size())
+        src = order[i + 1];
+      return static_cast<long>(g.get_unsafe(ut::to_pos(src)) + 7);
+    });
+    return grid_str(g);
+  }
+
+  static ivec plus_(ivec v, ll m)
+  {
+    for (ll &x : v)
+      x += m;
+    return v;
   }
 
   static std::string clamp_line(ivec const &d, ivec const &p)
@@ -896,6 +938,13 @@ std::string handle_grid(std::vector<std::string> const &t)
       return "bad-op";
     return R::cmp_line(d, c1, d2, c2);
   }
+  if (op == "fillself")
+  {
+    ll const mode = vh::to_ll(t[3]);
+    if (mode < 0 || mode > 4)
+      return "bad-op";
+    return R::fillself_line(d, vh::to_ll(t[2]), mode);
+  }
   if (op == "clamp")
     return R::clamp_line(d, vh::int_list(t[2]));
   if (op == "clamps")
@@ -1019,7 +1068,7 @@ std::string handle(std::vector<std::string> const &t)
     else if (op == "map") { lists = {1}; want = 5; }
     else if (op == "apply" && t.size() == 5) { lists = {1, 3}; want = 5; }
     else if (op == "apply" && t.size() == 7) { lists = {1, 3, 5}; want = 7; }
-    else if (op == "fill") { lists = {1}; want = 4; }
+    else if (op == "fill" || op == "fillself") { lists = {1}; want = 4; }
     else if (op == "interp") { lists = {1, 3, 4}; want = 5; }
     else if (op == "interps") { lists = {1}; want = 3; }
     else if (op == "regs") { lists = {1, 3, 5}; want = 8; }
